@@ -5,7 +5,7 @@ From Coq Require Import List NArith Arith Bool Lia String.
 From GV Require Import Base.Ints Gen.Math Gen.Kernel Model.Mirror
   Proofs.Thresholds Proofs.MirrorAuth Proofs.MirrorNoop Proofs.MirrorChain Proofs.MirrorCert
   Proofs.MirrorTotal Proofs.MirrorRestart Proofs.MirrorLog
-  Proofs.MirrorResumeWit Proofs.MirrorResumeLoad Proofs.MirrorResumeInv Proofs.MirrorResumeStart
+  Proofs.MirrorResumeWit Proofs.MirrorResumeLoad Proofs.MirrorResumeRT Proofs.MirrorResumeInv Proofs.MirrorResumeStart
   Proofs.MirrorResumeOps Proofs.MirrorResumeOps2.
 Import ListNotations.
 Local Open Scope N_scope.
@@ -19,9 +19,10 @@ Lemma K_cell_write ih ivs s s2 r e' w :
                    (rs_set (sr_rounds (stores_of s)) (v_h (k_vot s)) r e') (sr_replayed (stores_of s)) ->
   rentry_good ih (vs_keys (chain_vals ih ivs (st_hdrs s) (v_h (k_vot s)))) (st_hdrs s) (v_h (k_vot s)) r e' ->
   (pc_ne (st_rounds s) (v_h (k_vot s)) r -> exists pkh en l, re_pc e' = Some (pkh, en :: l)) ->
+  r <> v_r (k_vot s) -> r <> v_r (k_nxt s) ->
   K ih ivs s2 /\ pref ih ivs s s2.
 Proof.
-  intros (HI&HP&(Xc&Xn&(N1v&N1n)&Xk&Xs)) Ev En Ec F Hlog Hw Hst Est Hgood Hpc.
+  intros (HI&HP&(Xc&Xn&(N1v&N1n)&Xk&Xs)) Ev En Ec F Hlog Hw Hst Est Hgood Hpc Hrv Hrn.
   pose proof (cinv_nhr _ _ _ (proj1 HI)) as Hnhr.
   destruct (com_below _ _ _ (proj1 HI)) as [Hlt _].
   assert (S2 : SI ih ivs (stores_of s2)).
@@ -39,7 +40,27 @@ Proof.
   split; [unfold ne_state; rewrite Ev, En, Ec; exact Xn|].
   split.
   { unfold n1. rewrite Ev, En. split; intros Hne; apply Hcell; [apply N1v|apply N1n]; exact Hne. }
-  split; [eapply kok_frame; [rewrite Ev; reflexivity|rewrite En; reflexivity|exact Xk]|exact S2].
+  split; [|exact S2].
+  split; [eapply kok0_frame; [rewrite Ev; reflexivity|rewrite En; reflexivity|exact (proj1 Xk)]|].
+  destruct Xk as [_ [Yv Yn]].
+  assert (Er2 : st_rounds s2 = rs_set (st_rounds s) (v_h (k_vot s)) r e') by (apply (f_equal sr_rounds) in Est; exact Est).
+  assert (Hrp2 : st_replayed s2 = st_replayed s) by (apply (f_equal sr_replayed) in Est; exact Est).
+  assert (Hother : forall w0, r <> v_r w0 ->
+            yview (st_rounds s) (st_replayed s) w0 -> yview (st_rounds s2) (st_replayed s2) w0).
+  { intros w0 Hne Hw0. assert (Hcw : ((v_h (k_vot s) =? v_h w0) && (r =? v_r w0)) = false).
+    { destruct (N.eqb_spec r (v_r w0)); [contradiction|apply andb_false_r]. }
+    rewrite Er2, Hrp2. eapply yview_mono; [| | | |exact Hw0]; rewrite ?rs_entry_set, ?Hcw; try reflexivity; intros x Hx; exact Hx. }
+  unfold Y. rewrite Ev, En. split; apply Hother; assumption.
+Qed.
+
+(** a vote for a "future" round of the voting height is for neither the voting nor the next round *)
+Lemma find_view_future pos h r vid :
+  find_view pos h r = Ok (vid, ViewFuture) -> h = kpos_Voting_Height pos ->
+  r <> kpos_Voting_Round pos /\ r <> wrap32 (kpos_Voting_Round pos + 1).
+Proof.
+  unfold find_view. cbv zeta. intros E Hh. subst h. rewrite N.eqb_refl in E.
+  destruct (N.eqb_spec r (kpos_Voting_Round pos)); [inversion E|].
+  destruct (N.eqb_spec r (wrap32 (kpos_Voting_Round pos + 1))); [inversion E|]. split; assumption.
 Qed.
 
 (** * The merge of a future vote message into the stored collection *)
@@ -110,9 +131,10 @@ Qed.
 
 Lemma K_handle_future ih ivs kind s m s' res :
   (kind = KPrevote \/ kind = KPrecommit) -> K ih ivs s ->
+  (vm_h m = v_h (k_vot s) -> vm_r m <> v_r (k_vot s) /\ vm_r m <> v_r (k_nxt s)) ->
   handle_future_votes kind s m = Ok (s', res) -> K ih ivs s' /\ pref ih ivs s s'.
 Proof.
-  intros Hk HK. pose proof (signed_entries_nonempty (vm_proofs m)) as Hne.
+  intros Hk HK Hfut. pose proof (signed_entries_nonempty (vm_proofs m)) as Hne.
   pose proof HK as (HI&_&(_&_&_&_&Xs)).
   pose proof (cinv_nhr _ _ _ (proj1 HI)) as Hnhr.
   destruct (vot_vals _ _ _ (proj1 HI)) as [Evv _].
@@ -162,6 +184,8 @@ Proof.
   - rewrite <- Eh. fold e. intros (pkh&en&l&Epc). unfold e'. destruct (kind =? KPrevote); cbn [re_pc].
     + eexists; eexists; eexists; exact Epc.
     + destruct Hcollne as (en'&l'&Ecl). unfold coll. rewrite Ecl. eexists; eexists; eexists; reflexivity.
+  - exact (proj1 (Hfut Eh)).
+  - exact (proj2 (Hfut Eh)).
 Qed.
 
 (** * The vote handler *)
@@ -176,7 +200,10 @@ Proof.
   destruct (vm_proofs m) as [|vp0 vpl] eqn:Hp; [apply Hsame|].
   rewrite <- Hp. clear Hp vp0 vpl.
   destruct (find_view _ _ _) as [[vid st]|] eqn:Hfv; [|discriminate].
-  destruct (st =? ViewFuture); [apply K_handle_future; assumption|].
+  destruct (st =? ViewFuture) eqn:Hfu.
+  { apply K_handle_future; try assumption. intros Eh. apply N.eqb_eq in Hfu. subst st.
+    destruct (find_view_future _ _ _ _ Hfv Eh) as [A B]. cbn in A, B.
+    destruct HI as ((_&_&_&_&Hnr&_)&_). rewrite Hnr. split; assumption. }
   destruct (st =? ViewFound) eqn:Hst; cbn [negb]; [|apply Hsame].
   apply N.eqb_eq in Hst. subst st.
   destruct (negb (bytes_eqb _ _)); [apply Hsame|].
@@ -186,7 +213,15 @@ Proof.
      (List.length (vs_keys (v_vals (get_view s vid))))) Hk (get_view_auth s vid Ha)) as Hb.
   pose proof (build_updates_ne kind (get_view s vid) (sigs_to_add (view_votes kind (get_view s vid)) (vm_proofs m)
      (List.length (vs_keys (v_vals (get_view s vid)))))) as Hbn.
-  destruct (build_updates _ _ _) as [ups allv]. cbn [fst] in Hb, Hbn.
+  assert (Hbd : vid = ViewIDVoting \/ vid = ViewIDNextRound ->
+                nd_pmap (fst (build_updates kind (get_view s vid) (sigs_to_add (view_votes kind (get_view s vid)) (vm_proofs m)
+                   (List.length (vs_keys (v_vals (get_view s vid))))))) ).
+  { intros Hv. apply build_updates_nd.
+    pose proof HK as (_&_&(_&_&_&(_&(Yv&Yn))&_)).
+    assert (Hy : yview (st_rounds s) (st_replayed s) (get_view s vid)).
+    { unfold get_view. destruct Hv as [->| ->]; cbn; assumption. }
+    destruct Hy as ((_&A)&(_&B)&_). unfold view_votes. destruct (kind =? KPrevote); assumption. }
+  destruct (build_updates _ _ _) as [ups allv]. cbn [fst] in Hb, Hbn, Hbd.
   destruct ups as [|u ups'] eqn:Hu; [apply Hsame|]. rewrite <- Hu in *.
   assert (Hune : ups <> []) by (rewrite Hu; discriminate). clear Hu.
   destruct (apply_votes _ _ _ _ _ _) as [s2|] eqn:Happ; [|discriminate].
